@@ -225,9 +225,13 @@ def run_unit(unit, pid, tier, jobs, timeout_s, only=None):
                   "%s:%s" % (c.get("location", {}).get("file", "?"), c.get("location", {}).get("line", "?")))
                  for c in failed]
         funcs = set()
+        shadow_src = os.path.join(WORK, "shadow") + "/"
         for c in checks:
             loc = c.get("location", {}).get("file", "")
-            if loc.startswith(REPO + "/") and c.get("status") == "Success" and c.get("category") != "unreachable":
+            # code of /repo: compiled from /repo itself, or from the byte copy in a shadow crate
+            in_repo = loc.startswith(REPO + "/") or (loc.startswith(shadow_src) and "/src/bin/" not in loc) or (
+                unit["kind"] == "shadow" and loc.startswith("src/") and not loc.startswith("src/bin/"))
+            if in_repo and c.get("status") == "Success" and c.get("category") != "unreachable":
                 funcs.add(c.get("function", "?"))
         covers_sat = pd.get("satisfied", 0)
         covers_unsat = pd.get("unsatisfiable", 0)
